@@ -91,6 +91,20 @@ class Run:
 
     # ------------------------------------------------------------------ TLC
     def tlc(self, module, cfg=None, env=None, workers=None, timeout=1800, heap="6g", extra=None, simulate=None):
+        """One TLC run; a run that ends without a verdict (no 'No error has been found', no violated property) is
+        repeated once, so that a transient JVM failure on a loaded machine does not turn into exit 2."""
+        r = self._tlc(module, cfg, env, workers, timeout, heap, extra, simulate)
+        if not r["ok"] and "violated" not in r["out"] and "Deadlock reached" not in r["out"]:
+            log("TLC run of %s (%s) ended without a verdict (rc=%s); output tail:\n%s\n[check] repeating it once"
+                % (module, cfg, r["rc"], "\n".join(r["out"].splitlines()[-12:])))
+            for k in ("VOUT", "GEN_OUT"):   # outputs of the first attempt (CSVWrite appends)
+                v = (env or {}).get(k)
+                if v and os.path.exists(v):
+                    os.remove(v)
+            r = self._tlc(module, cfg, env, workers, timeout, heap, extra, simulate)
+        return r
+
+    def _tlc(self, module, cfg=None, env=None, workers=None, timeout=1800, heap="6g", extra=None, simulate=None):
         meta = os.path.join(self.dir, "meta-%s-%d" % (module, len(self.mc_runs) + int(time.time() * 1000) % 100000))
         cmd = ["java", "-XX:+UseParallelGC", "-Xmx" + heap, "-Xss256m", "-cp", CP, "tlc2.TLC",
                "-metadir", meta, "-workers", str(workers or NCPU), "-fpmem", "0.15"]
